@@ -49,7 +49,8 @@ S = {
 # Other spellings of the same flags that the real argument parser accepts (single-setting space only): short-option clusters with an
 # untracked letter before / after, glued values, `=` forms and unambiguous abbreviations.  "The flag was passed" does not depend on spelling.
 SPELLINGS = {
-    "width": [(["-w40"], 40), (["--width=88"], 88), (["-iw40"], 40), (["--wid", "40"], 40), (["-iw", "88"], 88)],
+    "width": [(["-w40"], 40), (["--width=88"], 88), (["-iw40"], 40), (["--wid", "40"], 40), (["-iw", "88"], 88),
+              (["-w", "0"], 0), (["--width", "-1"], -1)],      # values that are falsy / negative are still values the user typed
     "semantic": [(["-is"], True), (["-si"], True), (["--sem"], True), (["-ps"], True)],
     "cleanups": [(["-ic"], True), (["-ci"], True), (["--clean"], True)],
     "smartquotes": [(["--smartq"], True)],
@@ -58,7 +59,7 @@ SPELLINGS = {
     "extend_include": [(["--extend-include=*.mdx"], ["*.mdx"]), (["--extend-inc", "*.mdx"], ["*.mdx"])],
     "exclude": [(["--exclude=drafts/"], ["drafts/"]), (["--exclu", "drafts/"], ["drafts/"])],
     "extend_exclude": [(["--extend-exc", "drafts/"], ["drafts/"])],
-    "files_max_size": [(["--files-max-size=100"], 100), (["--files-max", "1048576"], 1048576)],
+    "files_max_size": [(["--files-max-size=100"], 100), (["--files-max", "1048576"], 1048576), (["--files-max-size", "0"], 0)],
     "respect_gitignore": [(["--no-respect"], False)],
     "force_exclude": [(["--force-ex"], True)],
 }
